@@ -1,12 +1,17 @@
-"""C01 -- message builder check (Trace_Wire.tla, clauses C01_*)."""
+"""C01 -- message builder check (Trace_Wire.tla, clauses C01_*; behaviours of spec/Build.tla among the messages)."""
 from __future__ import annotations
 
+from props import buildmodel as bm
 from props.wire_run import run_family
 from vf.core import Ctx
 
 
 def run(ctx: Ctx) -> None:
-    run_family(ctx, 'C01', 1500, 40000)
+    # the Build model itself is checked by C14; here a sample of its behaviours (inputs that split over several datagrams
+    # first) goes through the round-trip contract with the other messages
+    msgs, preds, total = bm.model_messages(ctx, ctx.pick(1500, 60000))
+    cases = run_family(ctx, 'C01', 1500, 40000, msgs)
+    bm.drift(ctx, cases, preds, total, {'model': 'Build', 'model_distinct': 0, 'model_states': 0})
 
 
 def replay(ctx: Ctx, path: str) -> None:
